@@ -50,3 +50,140 @@ func H_C20_dirichlet1() {
 	verifAssert(vfC20Close(sum, factor), "components sum to factor")
 	verifReach("sample")
 }
+
+// vfC20Shape: a shape parameter in the range of the property.
+func vfC20Shape(lo, hi float64) float64 {
+	a := nondetFloat()
+	assume(a >= lo && a <= hi)
+	return a
+}
+
+// vfC20CheckSample: the assertions on a Dirichlet sample.
+func vfC20CheckSample(s []float64, err error, n int, factor float64) {
+	verifAssert(err == nil, "valid parameters: no error")
+	verifAssert(len(s) == n, "one component per parameter")
+	if verifKnown("C20-gamma-returns-zero") {
+		// known finding: the shape < 1 sampler returns exactly 0 when the generator returns 0.0
+		// (K_C20_gamma_zero); the region "some component is exactly 0" is excluded.
+		for i := 0; i < n; i++ {
+			assume(s[i] != 0 && !math.IsNaN(s[i]))
+		}
+	}
+	sum := 0.0
+	for i := 0; i < n; i++ {
+		verifAssert(vfC20Finite(s[i]), "component is finite")
+		verifAssert(s[i] > 0, "component is strictly positive")
+		sum += s[i]
+	}
+	verifAssert(vfC20Close(sum, factor), "components sum to factor")
+	verifReach("sample")
+}
+
+// H_C20_dirichlet_errors: invalid Dirichlet parameters are errors: fewer than 3 parameters; a first parameter <= 0.
+// bounds: n in 0..4; parameters symbolic; factor symbolic in (0,1e6]; the invalid parameter is the first one (no draw is made before the error)
+// outside: an invalid parameter after a valid one (H_C20_dirichlet_errors_later); NaN parameters; IEEE rounding is outside the claim: floats are exact reals
+func H_C20_dirichlet_errors() {
+	n := nondetRange(0, 4)
+	factor := vfC20Factor()
+	alpha := make([]float64, n)
+	for i := range alpha {
+		alpha[i] = nondetFloat()
+	}
+	if n <= 2 {
+		for i := range alpha {
+			assume(alpha[i] > 0)
+		}
+		_, err := Dirichlet(factor, alpha...)
+		verifAssert(err != nil, "fewer than 3 parameters: error")
+		verifReach("too few")
+		return
+	}
+	assume(alpha[0] <= 0)
+	_, err := Dirichlet(factor, alpha...)
+	verifAssert(err != nil, "parameter <= 0: error")
+	verifReach("non-positive")
+}
+
+// H_C20_dirichlet_errors_later: a parameter <= 0 at any position is an error.
+// bounds: n = 3; the first invalid parameter at position 1 or 2, the valid ones before it symbolic in [0.01,100]; rejection runs of the sampler bounded by the draw budget (at most 5 draws of math/rand per path)
+// outside: longer rejection runs (they repeat the same loop body on fresh draws); IEEE rounding is outside the claim: floats are exact reals
+//verif: maxrand=5 maxsteps=200000
+func H_C20_dirichlet_errors_later() {
+	bad := nondetRange(1, 2)
+	factor := vfC20Factor()
+	alpha := make([]float64, 3)
+	for i := range alpha {
+		if i < bad {
+			alpha[i] = vfC20Shape(0.01, 100)
+		} else {
+			alpha[i] = nondetFloat()
+		}
+	}
+	assume(alpha[bad] <= 0)
+	_, err := Dirichlet(factor, alpha...)
+	verifAssert(err != nil, "parameter <= 0: error")
+	verifReach("non-positive")
+}
+
+// H_C20_dirichlet_ge1: Dirichlet(factor, alpha...) with every shape >= 1 (Cheng's sampler above 1, the exponential at 1): n strictly positive finite components summing to factor.
+// bounds: n = 3; shapes symbolic in [1,100] (both "= 1" and "> 1" samplers, per component); factor symbolic in (0,1e6]; every outcome of the draws with at most 8 draws of math/rand per path (3 components need 3..6 draws: at least one full rejection)
+// outside: n = 4 (thorough twin); longer rejection runs; shapes < 1 (H_C20_dirichlet_lt1); IEEE rounding is outside the claim: floats are exact reals; ln/exp/sqrt uninterpreted (DESIGN.md §2.4)
+//verif: maxrand=8 maxsteps=200000
+func H_C20_dirichlet_ge1() {
+	factor := vfC20Factor()
+	alpha := []float64{vfC20Shape(1, 100), vfC20Shape(1, 100), vfC20Shape(1, 100)}
+	s, err := Dirichlet(factor, alpha...)
+	vfC20CheckSample(s, err, 3, factor)
+}
+
+// H_C20_dirichlet_ge1_deep: as H_C20_dirichlet_ge1 with 4 components and a larger draw budget.
+// bounds: n = 4; at most 12 draws per path
+// outside: IEEE rounding is outside the claim: floats are exact reals
+//verif: tier=thorough maxrand=12 maxsteps=200000
+func H_C20_dirichlet_ge1_deep() {
+	factor := vfC20Factor()
+	alpha := []float64{vfC20Shape(1, 100), vfC20Shape(1, 100), vfC20Shape(1, 100), vfC20Shape(1, 100)}
+	s, err := Dirichlet(factor, alpha...)
+	vfC20CheckSample(s, err, 4, factor)
+}
+
+// H_C20_dirichlet_lt1: Dirichlet with shapes below 1 (Kennedy & Gentle's sampler; Ahrens-Dieter GS): n strictly positive finite components summing to factor.
+// bounds: n = 3; shapes symbolic in [0.01,1); factor symbolic in (0,1e6]; at most 8 draws per path (3 components need 6)
+// outside: longer rejection runs; IEEE rounding and underflow are outside the claim: floats are exact reals (natively u^(1/alpha) underflows to 0 for small alpha)
+//verif: maxrand=8 maxsteps=200000
+func H_C20_dirichlet_lt1() {
+	factor := vfC20Factor()
+	alpha := []float64{vfC20Shape(0.01, 1), vfC20Shape(0.01, 1), vfC20Shape(0.01, 1)}
+	for i := range alpha {
+		assume(alpha[i] < 1)
+	}
+	s, err := Dirichlet(factor, alpha...)
+	vfC20CheckSample(s, err, 3, factor)
+}
+
+// K_C20_gamma_zero: demonstrates the known finding C20-gamma-returns-zero: the shape < 1 sampler returns exactly 0 (not a positive variate) when the generator returns 0.0.
+// bounds: shape 1/2, scale 1; at most 2 draws
+// outside: IEEE rounding is outside the claim: floats are exact reals
+//verif: known=C20-gamma-returns-zero maxrand=2 maxsteps=200000 expect=violation
+func K_C20_gamma_zero() {
+	x := Gamma(0.5, 1)
+	verifReach("drawn")
+	verifAssert(x > 0, "gamma variate is strictly positive")
+}
+
+// H_C20_gamma: stats.Gamma(alpha, beta): an accepted variate is finite and strictly positive, for the three samplers (shape > 1, = 1, < 1).
+// bounds: shape symbolic in [0.01,100], scale symbolic in (0,1000]; at most 4 draws per path (one full rejection)
+// outside: longer rejection runs; IEEE rounding is outside the claim: floats are exact reals
+//verif: maxrand=4 maxsteps=200000
+func H_C20_gamma() {
+	alpha := vfC20Shape(0.01, 100)
+	beta := nondetFloat()
+	assume(beta > 0 && beta <= 1000)
+	x := Gamma(alpha, beta)
+	if verifKnown("C20-gamma-returns-zero") {
+		assume(!(alpha < 1 && x == 0))
+	}
+	verifAssert(vfC20Finite(x), "variate is finite")
+	verifAssert(x > 0, "variate is strictly positive")
+	verifReach("drawn")
+}
